@@ -19,7 +19,7 @@ DOC = {
  "C05.R3": "every mutable access to a tree's child map or supervisor slot happens while the tree lock guard is live; writers are link/unlink/take_children",
  "C05.R4": "link: child-map insertion reachable only under fresh status gates (read under the tree lock) that exclude Draining/Stopping/Stopped for the supervisor and Stopping/Stopped for the child, and the open-set (Some) edge; take_children take()s the set under the lock",
  "C05.R5": "identity tests: relink removes from the previous supervisor only when it differs from the new one; unlink removes/clears only when the caller is the current supervisor; take_children clears only slots that point at the parent",
- "C05.R6": "terminate: children taken inside the worklist cycle and pushed back; the status guard of the kill admits every status below Stopping (Unstarted..Draining)",
+ "C05.R6": "terminate: children taken inside the worklist cycle and pushed back; the status guard of the kill admits every status below Stopped (Unstarted..Stopping)",
  "C05.R7": "a refused link leaves start with Err before mark_running and before the loop task exists (Send); thread-local links before handing the builder to the spawner",
 }
 
@@ -327,9 +327,10 @@ def r6(run, db):
             if any(r["k"] == "call" and r["call"].bb == tk[0].bb for r in rts):
                 okext = True
     run.check(okext, "children-pushed", "the taken children are pushed onto the worklist", "taken children are not fed back into the worklist", t.where())
-    # which statuses does the kill reach?  every status an actor can have before it starts stopping (Unstarted..Draining)
-    # must be admitted: a descendant in any of them is still running user code and has to go down with the subtree.
-    live = ["Unstarted", "Starting", "Running", "Upgrading", "Draining"]
+    # which statuses does the kill reach?  every status below Stopped must be admitted: a descendant in any of them is
+    # still running user code and has to go down with the subtree.
+    # (a Stopping actor is still running user code -- post_stop -- and only reaches Stopped if that returns)
+    live = ["Unstarted", "Starting", "Running", "Upgrading", "Draining", "Stopping"]
     gates = []
     for s_ in status_tests(t):
         for edge, pol in ((s_["true_edge"], True), (s_["false_edge"], False)):
@@ -337,7 +338,7 @@ def r6(run, db):
                 gates.append((s_, pol))
     missed = [v for v in live if any(status_sat(s_["op"], s_["const"], v) != pol for s_, pol in gates)]
     run.check(not missed, "kill-guard-admits-every-live-status",
-              "the kill in terminate() reaches every descendant whose status is below Stopping (guards: %s)" % (["status %s %s is %s" % (s_["op"], s_["const"], pol) for s_, pol in gates] or "none"),
+              "the kill in terminate() reaches every descendant that has not reached Stopped (guards: %s)" % (["status %s %s is %s" % (s_["op"], s_["const"], pol) for s_, pol in gates] or "none"),
               "terminate() does not kill a descendant whose status is %s (guard %s): such an actor is detached from the tree but keeps running after its supervisor has stopped" % (
                   missed, ["status %s %s" % (s_["op"], s_["const"]) for s_, pol in gates]), kill[0].where())
     # take_children is unconditional within the cycle (every popped actor's set is closed)
